@@ -1,7 +1,7 @@
 use std::env;
 use std::ffi::{CStr, CString};
 use std::fs::File;
-use std::io::{Read, Write};
+use std::io::Write;
 use std::os::unix::io::FromRawFd;
 use std::os::fd::RawFd;
 use std::process;
@@ -612,24 +612,28 @@ fn run_single_program(
                 let mut s_out = String::new();
                 let mut s_err = String::new();
 
-                unsafe {
-                    if let Some(fds) = fds_capture_stdout {
-                        libs::close(fds.1);
-
-                        let mut f = File::from_raw_fd(fds.0);
-                        match f.read_to_string(&mut s_out) {
-                            Ok(_) => {}
-                            Err(e) => println_stderr!("cicada: readstr: {}", e),
-                        }
-                    }
-                    if let Some(fds) = fds_capture_stderr {
-                        libs::close(fds.1);
-                        let mut f_err = File::from_raw_fd(fds.0);
-                        match f_err.read_to_string(&mut s_err) {
-                            Ok(_) => {}
-                            Err(e) => println_stderr!("cicada: readstr: {}", e),
-                        }
-                    }
+                // both capture pipes are drained together: a command that
+                // fills one of them while the other is still open must not
+                // block forever (as it did when stdout was read to its end
+                // before stderr was looked at).
+                let mut fd_out = -1;
+                let mut fd_err = -1;
+                if let Some(fds) = fds_capture_stdout {
+                    libs::close(fds.1);
+                    fd_out = fds.0;
+                }
+                if let Some(fds) = fds_capture_stderr {
+                    libs::close(fds.1);
+                    fd_err = fds.0;
+                }
+                let (b_out, b_err) = read_capture_pipes(fd_out, fd_err);
+                match String::from_utf8(b_out) {
+                    Ok(s) => s_out = s,
+                    Err(e) => println_stderr!("cicada: readstr: {}", e),
+                }
+                match String::from_utf8(b_err) {
+                    Ok(s) => s_err = s,
+                    Err(e) => println_stderr!("cicada: readstr: {}", e),
                 }
 
                 *cmd_result = CommandResult {
@@ -649,6 +653,48 @@ fn run_single_program(
             0
         }
     }
+}
+
+/// Read the two capture pipes of a command substitution to their ends,
+/// taking data from whichever has some; both descriptors are closed.
+fn read_capture_pipes(fd_out: RawFd, fd_err: RawFd) -> (Vec<u8>, Vec<u8>) {
+    let mut fds = [fd_out, fd_err];
+    let mut data = [Vec::new(), Vec::new()];
+    let mut buf = [0u8; 4096];
+    while fds[0] >= 0 || fds[1] >= 0 {
+        let mut pfds = [
+            libc::pollfd { fd: fds[0], events: libc::POLLIN, revents: 0 },
+            libc::pollfd { fd: fds[1], events: libc::POLLIN, revents: 0 },
+        ];
+        let n = unsafe { libc::poll(pfds.as_mut_ptr(), 2, -1) };
+        if n < 0 {
+            if errno::errno().0 == libc::EINTR {
+                continue;
+            }
+            break;
+        }
+        for i in 0..2 {
+            if fds[i] < 0 || pfds[i].revents == 0 {
+                continue;
+            }
+            let k = unsafe {
+                libc::read(fds[i], buf.as_mut_ptr() as *mut libc::c_void, buf.len())
+            };
+            if k > 0 {
+                data[i].extend_from_slice(&buf[..k as usize]);
+            } else if k == 0 || errno::errno().0 != libc::EINTR {
+                libs::close(fds[i]);
+                fds[i] = -1;
+            }
+        }
+    }
+    for fd in fds.iter() {
+        if *fd >= 0 {
+            libs::close(*fd);
+        }
+    }
+    let [d_out, d_err] = data;
+    (d_out, d_err)
 }
 
 fn try_run_func(
